@@ -172,6 +172,10 @@ func (r *Runtime) VerifWeakRefPool() VerifGCPool { return r.weakRefPool }
 // the thread (0 when no Go function is running in it).
 func (t *Thread) VerifGoFunctionCallDepth() int { return t.goFunctionCallDepth }
 
+// VerifReentrantCallDepth returns the current depth of re-entrant calls
+// (Thread.call) in the thread (0 when none is in progress).
+func (t *Thread) VerifReentrantCallDepth() int { return t.reentrantCallDepth }
+
 // VerifCloseStackSize returns the number of pending to-be-closed values of the
 // thread.
 func (t *Thread) VerifCloseStackSize() int { return t.closeStack.size() }
